@@ -300,9 +300,9 @@ class Lexer:
                     if self.current_char not in HEX_NUMBER:
                         self.error("Invalid hex digit", column=column)
                     self.advance()
-                    digits += self.current_char
                     if self.current_char not in HEX_NUMBER:
                         self.error("Invalid hex digit", column=column)
+                    digits += self.current_char
                     self.advance()
                     result += self._safe_decode(int(digits, 16))
                 elif self.current_char == "u":
